@@ -16,6 +16,7 @@ ScRequire == { S("require", "minimal", "none", v, iv, op, nm) : v \in ReqVs, iv 
              \cup { S("require", "minimal", "none", NoV, iv, "", nm) : iv \in IsaVs, nm \in ReqNames }
 ScRequire2 == { S("require2", "minimal", "none", v, iv, op, nm) : v \in {Ver(<<1, 2, 3>>, Final), Ver(<<2>>, Final), Ver(<<0, 9, 9>>, Final)}, iv \in IsaVs,
                                                                      op \in {"==", ">=", "<"}, nm \in {"same", "other", "prefix"} }
-ScQuick == ScRequire2 \cup ScDef \cup ScMinVerQuick \cup ScMinVer2 \cup ScRequire
-ScThorough == ScRequire2 \cup ScDef \cup ScMinVerFull \cup ScMinVer2 \cup ScRequire
+ScRequireDef == { S("requiredef", "minimal", "none", NoV, NoV, "", nm) : nm \in {"same", "prefix", "other", "longer"} }
+ScQuick == ScRequireDef \cup ScRequire2 \cup ScDef \cup ScMinVerQuick \cup ScMinVer2 \cup ScRequire
+ScThorough == ScRequireDef \cup ScRequire2 \cup ScDef \cup ScMinVerFull \cup ScMinVer2 \cup ScRequire
 =============================================================================
